@@ -50,6 +50,21 @@ def _writes(fi):
     return out
 
 
+def _external_writes(prog, ci):
+    """assignments `<recv>.<attr> = ...` in functions of the class's module that are not methods of the class itself
+    (an owner object re-configuring its implementation object): [(fi, attr, receiver text, stmt)]"""
+    out = []
+    for key, fi in prog.functions.items():
+        if fi.module.name != ci.module.name or fi.cls is ci:
+            continue
+        for st in walk_function(fi.node):
+            if isinstance(st, (ast.Assign, ast.AugAssign)):
+                for t in (st.targets if isinstance(st, ast.Assign) else [st.target]):
+                    if isinstance(t, ast.Attribute) and not (isinstance(t.value, ast.Name) and t.value.id == "self"):
+                        out.append((fi, t.attr, norm_text(t.value), st))
+    return out
+
+
 def _transitive_reads(ci, prog, node, depth=0):
     """self attributes an expression depends on, following self.method() calls and properties one level deep"""
     reads = set(_self_reads(node))
@@ -74,6 +89,8 @@ def check_class(ctx, prog, ci, label=None):
     methods = {name: fs[-1] for name, fs in ci.methods.items()}
     writers = {name: _writes(fi) for name, fi in methods.items()}
     mutable_state = {a for name, w in writers.items() if name != "__init__" for a in w}
+    external = _external_writes(prog, ci)
+    mutable_state |= {a for _, a, _, _ in external}
     # (a) caching decorators
     for name, fi in methods.items():
         decs = [d for d in _decorator_names(fi.node) if d in CACHE_DECORATORS]
@@ -118,6 +135,9 @@ def check_class(ctx, prog, ci, label=None):
                 touched = sorted(a for a in w if a in deps)
                 if touched and memo not in w:
                     stale.append((other, touched))
+            for xfi, attr, recv, xst in external:
+                if attr in deps and not any(f2 is xfi and a2 == memo and r2 == recv for f2, a2, r2, _ in external):
+                    stale.append(("%s [%s.%s = ...]" % (xfi.qualname, recv, attr), [attr]))
             if stale:
                 ctx.violated(fi, st, "%s.%s caches self.%s, computed from self.%s; %s change%s that state without resetting the "
                              "cache, so later reads return the stale value" %
@@ -148,11 +168,13 @@ def check_functions(ctx, prog, module, what="mutable accessor objects"):
 _EXAMPLE = (
     "import functools\n"
     "class R:\n"
-    "    def __init__(self):\n        self._rows = []\n        self._view = None\n        self._ok = None\n"
+    "    def __init__(self):\n        self._rows = []\n        self._base = (1, 2)\n        self._where = 1\n        self._tail = None\n        self._view = None\n        self._ok = None\n"
     "    def record(self, x):\n        self._rows.append(x)\n"
     "    def record_ok(self, x):\n        self._rows.append(x)\n        self._ok = None\n"
+    "    def tail(self):\n        if self._tail is None:\n            self._tail = self._base[self._where]\n        return self._tail\n"
     "    def view(self):\n        if self._view is None:\n            self._view = list(self._rows)\n        return self._view\n"
     "    @functools.cached_property\n    def total(self):\n        return sum(self._rows)\n"
+    "class Owner:\n    def left(self):\n        self._impl._where = 0\n"
     "@functools.lru_cache(maxsize=8)\ndef peak(collective):\n    return collective.amplitude.max()\n"
 )
 
@@ -194,8 +216,8 @@ def run_rule(ctx, classes=(), modules=(), what="mutable accessor objects"):
     p2 = _example_program()
     check_class(sink, p2, p2.classes["ex:R"])
     check_functions(sink, p2, "ex")
-    if sorted(sink.v) != ["R.total @cached_property", "R.view memo _view", "peak @lru_cache"]:
+    if sorted(sink.v) != ["R.tail memo _tail", "R.total @cached_property", "R.view memo _view", "peak @lru_cache"]:
         raise AnalysisError("memoisation positive example failed: %s" % sorted(sink.v))
-    ctx.holds("selftest:positive-example", None, "memo rule fires on the three stale caches of the built-in example; %d cache site(s) "
+    ctx.holds("selftest:positive-example", None, "memo rule fires on the four stale caches of the built-in example; %d cache site(s) "
               "in %d class(es) / %d module(s) of the repository" % (n, len(list(classes)), len(list(modules))))
     return n
